@@ -31,6 +31,7 @@ size_t nondet_size_for_live(void);
 void *v_malloc(size_t n);
 void *v_realloc(void *p, size_t n);
 void v_free(void *p);
+void verif_bind_allocator(void);
 
 /* called first thing in every harness body (DFCC havocs non-const statics) */
 /* the ghost variables every allocating contract lists in its frame */
